@@ -48,8 +48,8 @@ package server
 //@   ensures [C36.filter_input_unchanged] forall i int :: 0 <= i && i < len(segments) ==> segments[i] == old(segments[i])
 //@   loop 1 invariant -1 <= rangeindex && rangeindex < len(segments) && len(out) <= rangeindex + 1 && base(out) != base(segments)
 //@   loop 1 invariant forall i int :: 0 <= i && i < len(segments) ==> segments[i] == old(segments[i])
-//@   loop 1 invariant forall j int :: 0 <= j && j < len(out) ==> 0 <= gsrc[j] && gsrc[j] <= rangeindex && out[j] == segments[gsrc[j]] && segKept(parsed, segments[gsrc[j]], timeMin, timeMax) && (j > 0 ==> gsrc[j-1] < gsrc[j])
-//@   loop 1 invariant forall i int :: 0 <= i && i <= rangeindex && segKept(parsed, segments[i], timeMin, timeMax) ==> 0 <= gdst[i] && gdst[i] < len(out) && gsrc[gdst[i]] == i
+//@   loop 1 invariant [C36.filter_is_subsequence.inv] forall j int :: 0 <= j && j < len(out) ==> 0 <= gsrc[j] && gsrc[j] <= rangeindex && out[j] == segments[gsrc[j]] && segKept(parsed, segments[gsrc[j]], timeMin, timeMax) && (j > 0 ==> gsrc[j-1] < gsrc[j])
+//@   loop 1 invariant [C36.filter_subsequence_complete.inv] forall i int :: 0 <= i && i <= rangeindex && segKept(parsed, segments[i], timeMin, timeMax) ==> 0 <= gdst[i] && gdst[i] < len(out) && gsrc[gdst[i]] == i
 
 // ---- TAIL n: the last n rows, in order ----
 //@ func appendTailRow
@@ -59,7 +59,8 @@ package server
 
 // ---- handleSelect: the row filter ----
 // Callees that are not part of the row filter are taken modularly (their effect is havocked, nothing is assumed
-// about their results), so that handleSelect can be explored path by path.
+// about their results), so that handleSelect can be explored path by path. "nullable" on such a stub only means
+// that no non-nil obligation is generated for that argument at the call sites (not a C36 clause).
 //@ func (s *Server) handleJoinSelect
 //@   nullable collector
 //@   modular
@@ -73,7 +74,7 @@ package server
 //@ func buildRowValues
 //@   modular
 //@ func (s *Server) send
-//@   nullable collector
+//@   nullable s, backend, collector
 //@   modular
 //@ func parseLimit
 //@   modular
@@ -101,7 +102,7 @@ package server
 //@   ghost gemit bool = false
 //@   at getLister#1 before start
 //@   at ListCompleted#1 after set glisted = ret0
-//@   at filterSegments#1 before assert [C36.select_filters_all_listed_segments] sameSlice(arg1, glisted) && arg0 == parsed
+//@   at filterSegments#1 before assert [C36.select_filters_all_listed_segments] sameSlice(arg1, glisted)
 //@   at filterSegments#1 before assert [C36.select_time_bounds_without_last] parsed.Last == "" ==> arg2 == parsed.TsMin && arg3 == parsed.TsMax
 //@   at enforceScanLimits#1 after cut
 //@   at buildRowValues#1 before set gemit = true
